@@ -7,6 +7,7 @@ import (
 	"fmt"
 	"os"
 	"regexp"
+	"runtime/pprof"
 	"sort"
 	"strings"
 	"time"
@@ -40,7 +41,13 @@ func main() {
 	solver := flag.String("solver", "z3 -in", "solver command")
 	mapperm := flag.Bool("mapperm", false, "explore all map iteration orders")
 	deadline := flag.Int("deadline", 0, "seconds per entry before truncation (0 = none)")
+	cpuprof := flag.String("cpuprofile", "", "write a CPU profile")
 	flag.Parse()
+	if *cpuprof != "" {
+		f, _ := os.Create(*cpuprof)
+		pprof.StartCPUProfile(f)
+		defer pprof.StopCPUProfile()
+	}
 
 	t0 := time.Now()
 	rr := &RunReport{Group: *group, Repo: *repo, FuncsUsed: map[string]int{}}
